@@ -9,9 +9,11 @@ From V Require Export Base.Bytes Run.Reload.
 Local Open Scope N_scope.
 
 Inductive c20case :=
-| C20Run (id : N) (evs : list event) (log : list (N * N)) (gauge : Z).
+| C20Run (id : N) (np : N) (evs : list event) (log : list (N * N)) (gauge : Z).
+(* np: loaded programs; program 0 is the one observed and reloaded, program 1 (if any)
+   is a bystander that holds a gauge whose name a refused version declares as a counter *)
 
-Definition c20case_id (c : c20case) : N := match c with C20Run i _ _ _ => i end.
+Definition c20case_id (c : c20case) : N := match c with C20Run i _ _ _ _ => i end.
 
 Definition n2_eqb (a b : N * N) : bool := N.eqb (fst a) (fst b) && N.eqb (snd a) (snd b).
 
@@ -21,12 +23,12 @@ Definition obs_log (l : list entry) : list (N * N) :=
 
 Definition c20case_ok (c : c20case) : bool :=
   match c with
-  | C20Run _ evs lg g =>
-      match run [0] true (init) evs with
+  | C20Run _ np evs lg g =>
+      match run (map N.of_nat (seq 0 (N.to_nat np))) true (init) evs with
       | None => false
       | Some s =>
           let q := ps s 0 in
-          match infl s, busy q with
+          match infl s, busy q ++ busy (ps s 1) with
           | None, [] =>
               list_eqb n2_eqb (obs_log (log q)) lg &&
               Z.eqb g (match last_writer (log q) with Some l => Z.of_N (l + 1) | None => 0%Z end)
